@@ -24,8 +24,8 @@ ASSUMPTIONS = ['harness-defined propagatable/clockable Logic subclasses (XNOR of
 BOUNDS = {
     'quick': 'all digraphs on <=3 nodes (all 2^(n^2) edge sets) with every comb/seq assignment, all orders; all placements for n<=2, '
              'flat + 3 hierarchy splits + 1 late-addition for n=3; n=4: all 64 DAGs + every single back-edge/self-loop extension, comb-only, flat',
-    'thorough': 'quick with all placements at n=3 + n=4 with all 16 kind assignments and late-addition/hierarchy placements; n=5: all 1024 DAGs comb-only x 120 orders, '
-                'and each DAG + one back edge/self-loop (rejection clause)',
+    'thorough': 'quick with all placements at n=3 + n=4 DAG(+1 edge) with 6 kind assignments (comb, each single register, all registers) and '
+                'late-addition/hierarchy placements; n=5: all 1024 DAGs comb-only x 120 orders, and the first 128 DAGs + one back edge/self-loop',
 }
 
 
@@ -281,6 +281,9 @@ def kind_sets(n, mode):
         return [k for k in itertools.product('cs', repeat=n)]
     if mode == 'comb':
         return [tuple('c' * n)]
+    if mode == 'mixed6':
+        # comb only, each single register, all registers
+        return [tuple('c' * n)] + [tuple('s' if i == j else 'c' for i in range(n)) for j in range(n)] + [tuple('s' * n)]
     if mode == 'le1reg':
         return [tuple('c' * n)] + [tuple('s' if i == j else 'c' for i in range(n)) for j in range(n)]
     raise ValueError(mode)
@@ -311,10 +314,12 @@ def shards(tier):
     n = 4
     for code in range(64):
         out.append({'n': 4, 'space': 'dag+1', 'lo': code, 'hi': code + 1,
-                    'kinds': 'all' if T else 'comb', 'place': 'some' if T else 'flat'})
+                    'kinds': 'mixed6' if T else 'comb', 'place': 'some' if T else 'flat'})
     if T:
-        for lo in range(0, 1024, 8):
-            out.append({'n': 5, 'space': 'dag+1', 'lo': lo, 'hi': lo + 8, 'kinds': 'comb', 'place': 'flat'})
+        for lo in range(0, 1024, 16):
+            out.append({'n': 5, 'space': 'dag', 'lo': lo, 'hi': lo + 16, 'kinds': 'comb', 'place': 'flat'})
+        for lo in range(0, 128, 4):
+            out.append({'n': 5, 'space': 'dag+1', 'lo': lo, 'hi': lo + 4, 'kinds': 'comb', 'place': 'flat'})
     return out
 
 
@@ -330,7 +335,7 @@ def edge_sets(d):
             yield edges_of(n, code, pairs)
     else:
         fp = fwd_pairs(n)
-        back = [(i, j) for i in range(n) for j in range(n) if i >= j]
+        back = [(i, j) for i in range(n) for j in range(n) if i >= j] if d['space'] == 'dag+1' else []
         for code in range(d['lo'], d['hi']):
             base = edges_of(n, code, fp)
             yield base
